@@ -18,7 +18,7 @@ from ..util import call
 from ..report import short
 
 glom = env.bind()
-from glom import T, SKIP, STOP, Auto, Sum, Flatten, Merge, Pipe, glom as G  # noqa: E402
+from glom import T, SKIP, STOP, Auto, Iter, Sum, Flatten, Merge, Pipe, glom as G  # noqa: E402
 from glom.grouping import Group, First, Max, Min, Avg, Limit   # noqa: E402
 from glom.reduction import Count   # noqa: E402
 
@@ -442,6 +442,17 @@ def one_case(col, rng):
         if not judge(col, node, items, got, label, wit):
             return
     col.count('reuse_histories')
+    # the items may arrive through a one-shot iterable (an iterator, a generator, a map object, the lazy result of an Iter step): the
+    # group is the loop over what that iterable yields - every item, the first one included, exactly once
+    src = rng.choice(['iter', 'generator', 'map', 'Iter-step', 'Iter-filter-step', 'tuple'])
+    feed = {'iter': lambda: (iter(list(a)), spec_obj), 'generator': lambda: ((x for x in list(a)), spec_obj), 'map': lambda: (map(lambda x: x, list(a)), spec_obj),
+            'Iter-step': lambda: (list(a), (Iter(), spec_obj)), 'Iter-filter-step': lambda: (list(a), (Iter().filter(lambda x: True), spec_obj)),
+            'tuple': lambda: (tuple(a), spec_obj)}[src]
+    tgt, sp = feed()
+    got = call(G, tgt, sp)
+    col.count('one_shot_sources')
+    if not judge(col, node, a, got, ' (items from a one-shot source: %s)' % src, wit):
+        return
     # nested: the same spec object evaluated once per element of a list, within one glom call
     got = call(G, [list(a), list(b), list(a)], [spec_obj])
     col.count('nested_evaluations')
